@@ -121,6 +121,10 @@ def shapes_of(fn_node, skip_self=True):
     return out
 
 
+class NotPiped(Exception):
+    pass
+
+
 class ForwardHarness:
     def __init__(self, file, cls, loader=None):
         self.file = file
@@ -152,6 +156,10 @@ class ForwardHarness:
             # applying an operator term to an observable == piping it
             if len(args) == 1 and isinstance(args[0], Opaque) and args[0].kind == "source" and not kwargs:
                 return it.world.call(it, args[0], "pipe", [f], {})
+            if len(args) == 1 and isinstance(args[0], Obj) and not kwargs:
+                # the operator is applied to an observable the method built itself (from_iterable((self, ...)), a merge of its arguments, ...):
+                # whatever that pipeline does, it is not `self.pipe(ops.<name>(...))`
+                raise NotPiped(f"ops.{f.name}(...) is applied to {args[0]!r}, an observable the method built itself, not to the receiver")
             raise Unsupported(f"operator term applied to {args!r}")
         if isinstance(f, Closure) and f.module is not None:
             if f.module.name == OPS_MODULE and isinstance(f.node, ast.FunctionDef) and "." not in f.qualname:
@@ -229,6 +237,9 @@ class ForwardHarness:
         src = w.mk_source()
         try:
             res = it.call(BoundMethod(src, m), args, kwargs)
+        except NotPiped as e:
+            self.fail(ctx, oid + "/is-pipe", f"result is not self.pipe(...): {e}")
+            return
         except PyExc as e:
             self.fail(ctx, oid + "/no-exception", f"fluent method raised {e.value!r} {getattr(e.value, 'fields', '')} where ops.{mname} accepts the call")
             return
